@@ -136,6 +136,7 @@ type State struct {
 	skipEnter   bool
 	epochExcept map[string]bool
 	selfVal     *Value
+	escaped     map[string]bool // field heaps whose embedded array has been sliced on this path: havocked at every read
 }
 
 func (f *Frame) clone() *Frame {
@@ -240,6 +241,17 @@ func (st *State) eng() *Engine { return st.u.eng }
 
 // heapGet returns the current term of a heap variable (declaring its initial version on demand).
 func (st *State) heapGet(name string, sort Sort) Term {
+	if st.escaped[name] {
+		if _, ok := st.heap[name]; !ok {
+			st.escaped[name] = false
+			st.heapGet(name, sort) // entry version
+			st.escaped[name] = true
+		}
+		t := st.eng().fresh(name, sort)
+		st.assumeHeapWF(t, sort)
+		st.heap[name] = t
+		return t
+	}
 	if t, ok := st.heap[name]; ok {
 		return t
 	}
